@@ -1,4 +1,5 @@
 """C18 — rollout is the inverse of flattening dotted keys."""
+from ..common import safe_repr
 from .. import encode, model, runner, sexp
 from ..common import d42  # noqa: F401
 from d42 import optional
@@ -142,21 +143,21 @@ def stale_state(ctx):
                 fresh = attempt(mk(), sep)
                 ident = attempt(dict(nested), sep)
                 ctx.count("stale_state_sequences")
-                info = dict(separator=sep, mapping=repr(mk()), broken_at=repr(path), bad_entry=repr((badk, badv)),
-                            while_broken=repr(mid)[:200])
+                info = dict(separator=sep, mapping=safe_repr(mk()), broken_at=safe_repr(path), bad_entry=safe_repr((badk, badv)),
+                            while_broken=safe_repr(mid)[:200])
                 for what, got in (("the same mapping after it was repaired", again), ("a fresh equal mapping", fresh)):
                     if first[0] != "ok" or got[0] != "ok" or not equal_mapping(got[1], want):
                         ctx.violation("rollout(flatten(m)) != m after an earlier rollout call failed (" + what + ")",
-                                      first=repr(first)[:300], got=repr(got)[:300], **info)
+                                      first=safe_repr(first)[:300], got=safe_repr(got)[:300], **info)
                 if ident[0] != "ok" or not equal_mapping(ident[1], nested):
                     ctx.violation("rollout of an already nested mapping is not the identity after an earlier call failed",
-                                  got=repr(ident)[:300], **info)
+                                  got=safe_repr(ident)[:300], **info)
         m = mk()
         for i in range(12):       # the same object many times
             got = attempt(m, sep)
             if got[0] != "ok" or not equal_mapping(got[1], want):
                 ctx.violation("rollout(flatten(m)) != m on the %d-th call with the same mapping object" % (i + 1),
-                              separator=sep, mapping=repr(mk()), got=repr(got)[:300])
+                              separator=sep, mapping=safe_repr(mk()), got=safe_repr(got)[:300])
                 break
 
 
@@ -167,7 +168,7 @@ def run(ctx):
         sep = ctx.rnd.choice(SEPS)
         counter = [0]
         tree = gen_tree(ctx.rnd, sep, ctx.rnd.randint(1, 4), counter)
-        ctx.case((sep, repr(tree)), depth_of(tree) >= 2)
+        ctx.case((sep, safe_repr(tree)), depth_of(tree) >= 2)
         ctx.count("sep:" + sep)
         flat = flatten(tree, sep)
         ctx.rnd.shuffle(flat)
@@ -181,18 +182,18 @@ def run(ctx):
         try:
             got = rollout(flat_d, separator=sep) if sep != "." or ctx.rnd.random() < .5 else rollout(flat_d)
         except Exception as e:  # noqa: BLE001
-            ctx.violation("rollout raised %s on a flattened mapping" % type(e).__name__, separator=sep, flat=repr(flat_d))
+            ctx.violation("rollout raised %s on a flattened mapping" % type(e).__name__, separator=sep, flat=safe_repr(flat_d))
             got = None
         if got is not None and not equal_mapping(got, want):
-            ctx.violation("rollout(flatten(m)) != m", separator=sep, nested=repr(want), flat=repr(flat_d), got=repr(got))
+            ctx.violation("rollout(flatten(m)) != m", separator=sep, nested=safe_repr(want), flat=safe_repr(flat_d), got=safe_repr(got))
         # identity on an already nested mapping without separators
         try:
             same = rollout(dict(want), separator=sep)
             if not equal_mapping(same, want):
-                ctx.violation("rollout of an already nested mapping is not the identity", separator=sep, nested=repr(want),
-                              got=repr(same))
+                ctx.violation("rollout of an already nested mapping is not the identity", separator=sep, nested=safe_repr(want),
+                              got=safe_repr(same))
         except Exception as e:  # noqa: BLE001
-            ctx.violation("rollout raised %s on a nested mapping" % type(e).__name__, separator=sep, nested=repr(want))
+            ctx.violation("rollout raised %s on a nested mapping" % type(e).__name__, separator=sep, nested=safe_repr(want))
         I = encode.Interner()
         reqs.append(["rollout", encode.enc_str(sep), enc_rval(flat_d, I)])
         exp.append(None if got is None else encode.tostr(["ok", enc_rval(got, I)]))
@@ -204,10 +205,10 @@ def run(ctx):
         try:
             got = rollout(flat_d, separator=sep)
             if not equal_mapping(got, tree):
-                ctx.violation("rollout(flatten(m)) != m", separator=sep, nested=repr(tree), flat=repr(flat_d), got=repr(got),
+                ctx.violation("rollout(flatten(m)) != m", separator=sep, nested=safe_repr(tree), flat=safe_repr(flat_d), got=safe_repr(got),
                               sep_unsafe=True)
         except Exception as e:  # noqa: BLE001
-            ctx.violation("rollout raised " + type(e).__name__, separator=sep, flat=repr(flat_d), sep_unsafe=True)
+            ctx.violation("rollout raised " + type(e).__name__, separator=sep, flat=safe_repr(flat_d), sep_unsafe=True)
     # malformed stream: non-str keys, `...` with a non-`...` value, a leaf that is later used as a node
     for flat_d, sep in (({1: 2}, "."), ({...: 1}, "."), ({"a": 1, "a.b": 2}, "."), ({"a.b": 1, "a": 2}, "."), ({"a..b": 1}, ".")):
         I = encode.Interner()
@@ -228,10 +229,10 @@ def run(ctx):
         if r != e:
             bad += 1
             if bad <= 10:
-                ctx.breakage("correspondence", "rollout result differs between model and code", separator=sep, flat=repr(flat_d),
+                ctx.breakage("correspondence", "rollout result differs between model and code", separator=sep, flat=safe_repr(flat_d),
                              detail=f"real {sexp.dumps(e)[:400]}\nmodel {sexp.dumps(r)[:400] if not isinstance(r, str) else r}")
     ctx.cov["corr_disagreements"] = bad
-    ctx.sample({"separator": info[0][0], "flat": repr(info[0][1])})
+    ctx.sample({"separator": info[0][0], "flat": safe_repr(info[0][1])})
 
 
 def replay(path):
